@@ -109,6 +109,20 @@ Theorem c14_on_time : forall d g es1 id x p es2,
   In id (seq_d d (outs r) (fin r)).
 Proof. exact c14_on_time_lemma. Qed.
 
+(* Calls that mean nothing on a healthy link -- release of a link that is not
+   held, repair / repair_oneway of a link that is not partitioned -- can be
+   erased from any healthy-link history without changing anything: state,
+   global latency and everything handed to the hosts are those of the history
+   without them, and the erased history is in the alphabet of the theorems
+   above.  (A release that pulled in-flight messages forward, or a repair that
+   touched anything, would break this.) *)
+Theorem c14_noop_erasure : forall es g,
+  Forall c14_event_ext es ->
+  run g init es = run g init (erase es) /\ Forall c14_event (erase es).
+Proof.
+  intros es g H. split; [apply c14_noop_erasure_lemma; [exact H|exact (healthy_init 0)|exact (all_after_init 0)]|apply erase_c14; exact H].
+Qed.
+
 (* Non-vacuity; the default configuration read from config.rs satisfies lmin <= lmax. *)
 Definition gdef := {| lmin := default_min_latency_ms * ms; lmax := default_max_latency_ms * ms |}.
 Definition hfifo := [Send AB 1 3 false false; Tick ms; Send AB 2 2 false false; Tick (5 * ms); Drain true].
@@ -137,4 +151,5 @@ Print Assumptions c14_fifo_equal_latency.
 Print Assumptions c14_delivered.
 Print Assumptions c14_not_early.
 Print Assumptions c14_on_time.
+Print Assumptions c14_noop_erasure.
 Print Assumptions c14_nonvacuous.
